@@ -101,6 +101,7 @@ def modelObs (sim : Sim) : List String → String × Sim
         | some (sh3, t3) => (s!"{sh3.lock}", { sh := sh3, t := t3 })
         | none => ("stuck", sim)
   | "S" :: _ => ("0 0 0 0", sim)
+  | "CL" :: _ => ("0 0 0", sim)
   | "H" :: _ => ("ok", sim)
   | _ => ("bad-op", sim)
 
@@ -123,6 +124,10 @@ def oracle (w : Nat) (op obs : List String) : List String × Nat :=
     ((if v ≠ "0" then ["mutex"] else []) ++ (if lost ≠ "0" then ["handover"] else []) ++
      (if word ≠ "0" then ["release-frees"] else []) ++
      (if hang = "1" then ["deadlock"] else if hang ≠ "0" then ["no-crash"] else []), 0)
+  | "CL" :: _, [dups, lost, stuck] =>
+    -- the lock's real clients (AllocFrame/FreeFrame) under concurrency
+    ((if dups ≠ "0" then ["client-mutual-exclusion"] else []) ++ (if lost ≠ "0" then ["client-accounting"] else []) ++
+     (if stuck = "1" then ["client-deadlock"] else if stuck ≠ "0" then ["no-crash"] else []), 0)
   | "H" :: _, _ => (["deadlock"], w)
   | _, _ => (["bad-line"], w)
 
